@@ -41,6 +41,11 @@ def jobs(tier):
         J.append(Job(b, main, "2,1,0,0", p1, env))
         J.append(Job(b, "two_readers", "2,0,0,0", p1, env))
         J.append(Job(b, "merged", "2,0,0,0", p1, env))
+        if b == "gp_qsbr" or (not q and b != "gp_bp"):
+            J.append(Job(b, "merged", "2,0,0,0", dict(p1, upd_registered=1), env))
+            J.append(Job(b, "three_callers", "1,0,0,0", dict(p1, upd_registered=1), env))
+        elif b == "gp_mb":
+            J.append(Job(b, "merged", "1,0,0,0", dict(p1, upd_registered=1), env))
         if b == "gp_qsbr":
             for ur in (1, 2):
                 J.append(Job(b, "qsbr", "2,0,0,0", dict(p1, updater_registered=ur), env))
